@@ -22,8 +22,8 @@ func floatToString(value float64, bitsize int) string {
 		}
 		return "Infinity"
 	}
-	exponent := math.Log10(math.Abs(value))
-	if exponent >= 21 || exponent < -6 {
+	// ES5 9.8.1: positional notation iff 1e-6 <= |value| < 1e21 (math.Log10 rounds near the bounds).
+	if abs := math.Abs(value); abs >= 1e21 || abs < 1e-6 {
 		return matchLeading0Exponent.ReplaceAllString(strconv.FormatFloat(value, 'g', -1, bitsize), "$1$2")
 	}
 	return strconv.FormatFloat(value, 'f', -1, bitsize)
